@@ -236,6 +236,10 @@ def run(chk, ctx) -> None:
     _reentrancy(chk, ctx, disc)
     _beliefs(chk, ctx)
     _constructor(chk, ctx)
+    from .cover import begin_flags, end_guards, setup_flags
+    begin_flags(chk, ctx)
+    end_guards(chk, ctx)
+    setup_flags(chk, ctx)
 
 
 def _progress(ctx, path, pending, upd) -> bool:
